@@ -380,8 +380,8 @@ func init() {
 		Rule:   "d = 0..15 (every value, case index mod 16) x ordinates aimed at the rounding logic (values straddling (k+1/2)*10^-d and k*10^-d by 0..3 ulps, binary ties, many nines, values rounding across a power of ten / to zero / to -0, 5e-324, 1e21, 1.7e308, random finite bits) x all geometry types and nested collections; WKT in XY/XYZ/XYM/XYZM, GeoJSON in XY/XYZ/XYZM with and without bbox, both option orders. Each emitted numeral: <= d fractional digits, no trailing zero or dangling point, not in exponent form, |exact(numeral) - exact(input)| <= 1/2*10^-d compared as rationals; output re-read by the independent WKT/JSON readers with unchanged type, structure and ordinate count; bbox numerals are such roundings of the exact bounds. distinct_nontrivial = distinct (format, d, bbox, shape signature)",
 		Assume: []string{"math/big exact decimal arithmetic; reference readers in harness/ref"},
 		Classes: []fw.Class{
-			{Name: "wkt", Quick: 48000, Thorough: 16 * 200000, Run: c18WKT},
-			{Name: "geojson", Quick: 48000, Thorough: 16 * 200000, Run: c18GeoJSON},
+			{Name: "wkt", Quick: 96000, Thorough: 16 * 200000, Run: c18WKT},
+			{Name: "geojson", Quick: 96000, Thorough: 16 * 200000, Run: c18GeoJSON},
 		},
 		Require: []string{"numbers_checked", "numbers_d00", "numbers_d15", "exact_ties", "rounded_to_zero", "rounded_to_minus_zero", "rounded_across_power_of_ten", "wkt_outputs", "geojson_outputs", "bbox_outputs"},
 	})
